@@ -1,5 +1,6 @@
 import Srctools.Proofs.Tok
 import Srctools.Proofs.TokSeq
+import Srctools.Proofs.TokLine
 import Srctools.Gen.Tok
 /-!
 # C02 — `escape_text` and the tokenizer are exact inverses on every string
@@ -178,6 +179,28 @@ every special character evaluates as stated. -/
 example : run Gen.Tok.tables {} (fun c => [c])
     (quotedSeq Gen.Tok.tables false [(['\t'], ['k', '"']), ([' '], C02_sample), ([], [])])
     = { toks := [⟨1, ['k', '"'], 1⟩, ⟨1, C02_sample, 1⟩, ⟨1, [], 1⟩, ⟨0, [], 1⟩], err := none } := by
+  decide +kernel
+
+/-- **A line inside a file.** The padded quoted strings followed by *any* further text `tail`: the
+tokenizer reads exactly the strings (observations `strObs`) and then continues on `tail` as if it
+started there, with the line counter advanced by the raw line feeds written and no pending CR — so
+one written line never disturbs what follows it, whatever that is. -/
+theorem C02_line_then (T : Tables) (h : escOK T = true) (hw : wsOK T = true) (o : Opts)
+    (ho : o.allowEscapes = true) (fold : Char → List Char) (ml : Bool) (tail : List Char)
+    (items : List (List Char × List Char)) (hb : ∀ p ∈ items, isBlank p.1 = true)
+    (n line : Nat) (acc : List Obs) :
+    runAux T o fold (n + items.length) { line := line, lastCr := false }
+        (quotedSeqT T ml tail items) acc
+      = runAux T o fold n { line := lineAfter T ml line items, lastCr := false } tail
+          ((strObs T ml line items).reverse ++ acc) :=
+  runAux_quotedSeqT T h hw o ho fold ml tail items hb n line acc
+
+/-- Concrete instance (a test, not the unbounded claim): the VMF line `\t"k\"" "<sample>"\n`
+followed by a closing brace tokenizes to STRING, STRING, NEWLINE, BRACE_CLOSE, EOF. -/
+example : run Gen.Tok.tables {} (fun c => [c])
+    (quotedSeqT Gen.Tok.tables false ['\n', '}'] [(['\t'], ['k', '"']), ([' '], C02_sample)])
+    = { toks := [⟨1, ['k', '"'], 1⟩, ⟨1, C02_sample, 1⟩, ⟨2, ['\n'], 2⟩, ⟨7, ['}'], 2⟩, ⟨0, [], 2⟩],
+        err := none } := by
   decide +kernel
 
 end Tok
